@@ -29,8 +29,9 @@ CHECKS = {
           "frozen registry and padding set."),
     design_ref="DESIGN.md §6 C02",
     note=("There is no per-field layout table in TLA+ (DESIGN §8): the Vector images are the format oracle. 'Same shape' "
-          "uses the decoded object's containers plus the size-preservation rule; a seeded change inside the known "
-          "CanFdMessage64 ext-data finding is masked (seeded/C02-m1)."),
+          "uses the decoded object's containers plus the size-preservation rule; each member a substitution changed is "
+          "classified on the real encoder as recomputed / layout / value (DESIGN §8); known findings on derived images "
+          "are keyed by offset and the exact set of failing values."),
     technique="reference-image replay with sensitivity analysis + TLC record validation against the frozen registry"),
  "C03": dict(
     category="model_checking",
@@ -39,7 +40,9 @@ CHECKS = {
           "behaviour on it are recorded; TLC validates every record against Framing.tla (FramedAsDeclared) using the "
           "frozen header sizes, type registry and padding set of Registry.tla: header-size field, object size = bytes "
           "emitted without padding, padding = size mod 4 zero bytes exactly for the padding types, decode consumes "
-          "what was emitted, re-encoding the decoded object reproduces the bytes. Concatenations of 50 random "
+          "what was emitted, re-encoding the decoded object reproduces the bytes, and the same bytes reach a real "
+          "UncompressedFile whose log container boundaries fall at the object's end, inside its padding and inside its "
+          "payload (ufSame). Concatenations of 50 random "
           "encodings are walked by header fields alone; thorough tier repeats the records under ASan."),
     design_ref="DESIGN.md §6 C03",
     note="Scalar values are seeded samples; classes and payload-length residues are enumerated.",
@@ -87,7 +90,10 @@ CHECKS = {
           "and FileOutUnique = Chop(total, C) (write) are invariants checked by TLC over all interleavings; M1 edge "
           "replay compares delivered ids, queue contents, container sequence and header of the real session with the "
           "spec after every step; real-scale sessions under seeded schedules must deliver exactly the expected ids / "
-          "produce a single output hash."),
+          "produce a single output hash. Stated as refinement: FileContract.tla is the sequential contract (read() "
+          "returns the next object or a final nullptr; bytes reach the file in order and completely at close) and TLC "
+          "checks ReadSession => FileContract!ReadSpec and WriteSession => FileContract!WriteSpec (RefinesContract) on "
+          "every transition of the same graphs."),
     design_ref="DESIGN.md §6 C07",
     note="As C06. Object identity is the time stamp set by the harness.",
     technique="TLA+ session specs + TLC invariants + M1 edge replay + seeded schedules"),
@@ -108,7 +114,7 @@ CHECKS = {
     text=("Resync.tla models ObjectHeaderBase::read's signature scan as an automaton over {L,O,B,J,x}; TLC enumerates "
           "every filler string up to length 6 (quick) / 8 (thorough) that does not contain the signature and checks "
           "FindsFirstSignature; every one of these fillers is executed on the real ObjectHeaderBase::read over a real "
-          "UncompressedFile (end position compared). ReadSession carries the same automaton: configurations with "
+          "UncompressedFile and over a CompressedFile on a real file (end position compared). ReadSession carries the same automaton: configurations with "
           "partial-signature filler and unknown objects (all residues mod 4, reserved/zero/>131 codes) between known "
           "objects and across container boundaries are model-checked for all interleavings (DoneDeliveredAll) and "
           "edge-replayed; real-scale files over 12 unknown codes x 6-7 sizes under seeded schedules."),
@@ -185,8 +191,8 @@ CHECKS = {
           "chunk, container and buffer; published demand): DeadlockFree, Termination, BytesExact, PendingBounded by "
           "TLC and edge replay under the controlled scheduler."),
     design_ref="DESIGN.md §6 C15",
-    note=("Bounded: positions <= 4..6, container sizes 1..3. write(container) only while no container is open at the "
-          "put position (Protocol)."),
+    note=("Bounded: positions <= 4..6, container sizes 1..3. The former restriction of write(container) to a closed put "
+          "position was removed; the defect it hid (F14) is repaired in /repo."),
     technique="TLA+ sequential spec + TLC exhaustive + M1 edge replay on the real object"),
  "C17": dict(
     category="model_checking",
@@ -194,7 +200,8 @@ CHECKS = {
           "FactoryConsistent is validated by TLC on records of File::createObject for all codes 0..255, boundary and "
           "2000 seeded 32-bit codes (class created, constructor code, class the code maps back to). Default-constructed "
           "objects of every class are built in heap memory pre-filled with 4 patterns (members and encodings must be "
-          "identical) and written/decoded (class preserved)."),
+          "identical); their FRAME records are validated by TLC against DefaultRoundTrip (written under a code of the "
+          "class, read back completely as the same class)."),
     design_ref="DESIGN.md §6 C17",
     note="Registry frozen from the pinned tree's documentation, cross-checked against the reference logs' type codes.",
     technique="TLA+ registry + TLC record validation + poisoned-heap construction"),
@@ -205,11 +212,15 @@ CHECKS = {
           "small constants; every edge of both state graphs is then executed on the real ObjectQueue (mode M1), the "
           "concurrent graph under the controlled scheduler, comparing the projected object state and the set of "
           "blocked threads after every step. Exhaustive model checking plus edge-complete conformance is the right "
-          "level for a small monitor whose whole behaviour fits in a bounded graph."),
+          "level for a small monitor whose whole behaviour fits in a bounded graph. Beyond the bounds: OQScale.tla "
+          "evaluates the same operators on single large states (capacities / fill levels around 2^8 and 2^16) and the "
+          "real queue is put into those states (M3); OQAbs.tla abstracts the queue to its length - ObjectQueueSeq "
+          "refines it (TLC) and Apalache proves Counters and CapacityRespected for all capacities and counter values "
+          "from an inductive invariant."),
     design_ref="DESIGN.md §6 C16, §3.1, §4.3",
     note=("Trusted: TLC, the projection of private members via -fno-access-control, the scheduler shim "
           "(harness/vsync.*) for the concurrent part. Bounds: <=4 (quick) / <=6 (thorough) objects, capacities 1..3(4)."),
-    technique="TLA+ spec + TLC exhaustive + M1 edge replay on the real object"),
+    technique="TLA+ spec + TLC exhaustive + M1 edge replay on the real object + M3 scale vectors + Apalache inductive invariant"),
 }
 
 REASON_PENDING = "check under construction in this round (see DESIGN.md §6); not claimed yet"
